@@ -115,6 +115,25 @@ Theorem c10_history : forall (mac : str -> str), (forall m, is_bytes (mac m)) ->
 Proof. exact jar_history. Qed.
 Print Assumptions c10_history.
 
+(* A clear on a response that already carries cookies (a refresh earlier in the same request, then the refreshed
+   session is refused or the user signs out): the deletions are computed from the presented cookies AND the names
+   already set on the response.  Whatever those further names are, the family of the presenting jar is emptied, the
+   next request loads nothing, and no other cookie is touched. *)
+Theorem c10_clear_with_response_cookies : forall (mac : str -> str), (forall m, is_bytes (mac m)) ->
+  forall cfg host,
+  zlen (c_name cfg) < split_name_limit -> 0 <= c_expire_ns cfg ->
+  forall j extra,
+  let name := c_name cfg in
+  let D := select_domain host (c_domains cfg) in
+  let P := c_path cfg in
+  dom_ok name D P j ->
+  dom_ok name D P (jar_apply j (store_clear cfg host (jar_cookies j) extra)) /\
+  filter (otherb name) (jar_apply j (store_clear cfg host (jar_cookies j) extra)) = filter (otherb name) j /\
+  filter (sessb name) (jar_apply j (store_clear cfg host (jar_cookies j) extra)) = [] /\
+  forall now, store_load mac cfg (jar_cookies (jar_apply j (store_clear cfg host (jar_cookies j) extra))) now = None.
+Proof. intros mac Hmac cfg host Hn He j extra name D P Hd. eapply clear_extra_step; eassumption. Qed.
+Print Assumptions c10_clear_with_response_cookies.
+
 (* the timestamp premise of the save theorems holds for every non-negative int64 *)
 Theorem c10_ts_ok_range : forall t, 0 <= t <= int64_max -> ts_ok t = true.
 Proof. exact ts_ok_range. Qed.
